@@ -339,7 +339,6 @@ func (w *World) stopNode(i int) {
 	}
 	n.Alive = false
 	n.cancel()
-	n.Pipe.Close()
 	n.Hippo.Close()
 	n.Flash.Close()
 	n.Book.VerifClose()
